@@ -34,6 +34,9 @@ RULES = [
 ]
 
 
+RULES.append(("R3", "smooth/manifolds/submanifold.hpp", r"using Scalar      = man<M>::Scalar;", "using Scalar      = typename man<M>::Scalar;", 1))
+
+
 class BuildError(Exception):
     pass
 
@@ -127,7 +130,7 @@ def compile_tu(name, text, kind="ll", rules=(), extra_flags=()):
     incs = ["-I", inc, "-I", os.path.join(VERIF, "shims"), "-I", EIGEN]
     tmp = out + ".tmp%d" % os.getpid()
     if kind == "ll":
-        cmd = ["clang++-14"] + CLANG_FLAGS + list(extra_flags) + incs + ["-S", "-emit-llvm", src, "-o", tmp]
+        cmd = ["clang++-14"] + CLANG_FLAGS + ["-DVERIF_IR"] + list(extra_flags) + incs + ["-S", "-emit-llvm", src, "-o", tmp]
     elif kind == "so-clang":
         cmd = ["clang++-14"] + CLANG_FLAGS + list(extra_flags) + incs + ["-fPIC", "-shared", src, "-o", tmp]
     else:
